@@ -204,6 +204,23 @@ Proof.
   exfalso. unfold o2_add, add, OpenTable.N in Hexn. rewrite Hf in Hexn. discriminate.
 Qed.
 
+Theorem open8_generated_addnogrow_full_only_if_all_full rv mc n hash ops mCount k :
+  1 <= mc <= 7 -> 0 <= n <= 63 -> (forall k, 0 <= hash k) ->
+  let h := HSAddRefine.home n hash in
+  let s := fold_left (n1_step rv mc n h) ops (n1_empty mc) in
+  n1_gen_add rv mc n hash s mCount k = Exn ->
+  forall b, 0 <= b < 2 ^ n -> (Z.to_nat mc <= length (bk _ s b))%nat.
+Proof.
+  intros Hmc Hn Hh h s Hexn.
+  assert (Hr : forall k, 0 <= h k < 2 ^ n) by (intros k'; apply (HSAddRefine.home_range n Hn); apply Hh).
+  apply (open8_full_only_if_all_full rv mc n h ops k (mk_arg (hash k) n 0) Hmc Hn Hr).
+  rewrite (open8_generated_addnogrow rv mc n hash s mCount k Hn) in Hexn.
+  unfold n1_add, add. fold h. unfold OpenTable.N.
+  fold h in Hexn.
+  destruct (first_free n Gen_Open8.GetNextBucketIndex (Z -> Z) (Gen_OpenN1_ops.IsFull rv mc) s (h k) 0 (Z.to_nat (2 ^ n))) as [p|] eqn:Hf; [|fold s; rewrite Hf; reflexivity].
+  exfalso. unfold n1_add, add, OpenTable.N in Hexn. rewrite Hf in Hexn. discriminate.
+Qed.
+
 (* ------------------------------------------------------------------ HashSet::pvFind regenerated = the model's find *)
 Definition o2_wasfull (b : BucketOps.O2.st) : bool := Gen_Open2N2_ops.WasFull (BucketOps.O2.ms b) (BucketOps.O2.sh b) (BucketOps.O2.hp b).
 Definition o2_gen_find n hash := HSFindRefine.gen_find n Gen_Open2N2.GetNextBucketIndex BucketOps.O2.st BucketOps.O2.dec o2_wasfull hash.
